@@ -18,7 +18,7 @@ def native_check(seed=0, n_files=4):
             samples = rng.integers(0, 2, size=(N, n))
             psi = rng.normal(size=(2 ** n, 2))
             re_, im_ = rng.normal(size=(2 ** n, 2 ** n)), rng.normal(size=(2 ** n, 2 ** n))
-            alphabet = ["X", "Y", "Z", "H"]
+            alphabet = [["X", "Y", "Z", "H"], ["X", "Z", "a"], ["Z", "z", "_"]][t % 3]
             trb = rng.choice(alphabet, size=(N, n))
             bs = ["".join(rng.choice(alphabet, size=n)) for _ in range(int(rng.integers(1, 4)))]
             p = lambda nm: os.path.join(tmp, "data_%s.txt" % nm)        # the same file names in every round: the files are rewritten
@@ -47,6 +47,10 @@ def native_check(seed=0, n_files=4):
                     fails.append("load_data_DM accepted a single matrix path")
                 except ValueError:
                     pass
+            z = D.extract_refbasis_samples(out[0], out[2])
+            want_rows = [i for i in range(N) if all(c == "Z" for c in trb[i])]
+            if tuple(z.shape) != (len(want_rows), n) or not torch.equal(z, out[0][want_rows]):
+                fails.append("extract_refbasis_samples on the loaded data is not the all-Z rows in order (alphabet %s)" % "".join(alphabet))
             one = D.load_data(p("s"), bases_path=p("b"))
             if len(one) != 2 or np.ndim(one[1]) != 1:
                 fails.append("load_data with a bases file only")
